@@ -69,6 +69,7 @@ def configs(tier):
     for kind, n in e2e:
         for letter in ("X", "Y"):
             out.append({"part": "end-to-end", "obs": letter, "kind": kind, "n": n})
+    out.append({"generic": "every shape"})
     return out
 
 
@@ -78,6 +79,9 @@ def canaries(tier):
 
 
 def run_config(ctx, cfg):
+    if cfg.get("generic"):
+        from contracts import gsets
+        return gsets.run(ctx, "C08")
     if cfg["part"] == "stubbed":
         return _stubbed(ctx, cfg)
     if cfg["part"] == "diagonal":
@@ -263,5 +267,8 @@ def _e2e(ctx, cfg):
 
 
 def replay(o):
+    if o["cfg"].get("generic"):
+        from contracts import gsets
+        return gsets.replay("C08", o)
     from drivers import C08 as D
     return D.replay(o["cfg"], (o.get("witness") or {}).get("env") or {})
